@@ -253,6 +253,8 @@ pub(crate) enum ExprErrorKind {
     UnexpectedValueForSignal(String, OutputValue),
     #[error("Division by zero")]
     DivisionByZero,
+    #[error("Cannot generate a random number below {0}")]
+    EmptyRandomRange(i64),
 }
 
 /// Could not construct static iterator
